@@ -83,6 +83,7 @@ func cmdDump(args []string) int {
 }
 
 type checkOpts struct {
+	replayBudget *int32 // candidate-model searches left for obligations the solver did not decide (per run)
 	prop, tier, repo, verif string
 	seed                    int
 	timeout                 int
@@ -515,6 +516,8 @@ func (g *Gen) emitAxiomsPkg(pkg string, env *Env) {
 func runCheck(o checkOpts) *CheckOutcome {
 	t0 := time.Now()
 	out := &CheckOutcome{}
+	budget := int32(4)
+	o.replayBudget = &budget
 	say := func(format string, a ...interface{}) {
 		if !o.quiet {
 			fmt.Printf(format+"\n", a...)
